@@ -30,7 +30,7 @@ def r23s_finalize(repo, sink):
             continue
         kinds = ["file", "ram", "file"]
         if repo.is_subclass(c, iad):
-            o = _adapter_obj(repo, c.name, 3, kinds, extra={"_prev_time": None, "step": Sym("step")})
+            o = _adapter_obj(repo, c.name, 3, kinds, extra={"step": Sym("step")})
         else:
             o = _output_obj(repo, 3, kinds, {Obj(label="A"): None})
             o.cls = c
